@@ -1626,11 +1626,17 @@ parsec_update_deps_with_counter(parsec_taskpool_t *tp,
 
     if( 0 == *deps ) {
         dep_new_value = parsec_check_IN_dependencies_with_counter(tp, task) - 1;
+#if defined(PARSEC_VERIF)
+        PARSEC_VERIF_YIELD(PARSEC_VERIF_SITE_DEPS_COUNTER);
+#endif
         if( parsec_atomic_cas_int32( deps, 0, dep_new_value ) == 1 )
             dep_cur_value = dep_new_value;
         else
             dep_cur_value = parsec_atomic_fetch_dec_int32( deps ) - 1;
     } else {
+#if defined(PARSEC_VERIF)
+        PARSEC_VERIF_YIELD(PARSEC_VERIF_SITE_DEPS_COUNTER);
+#endif
         dep_cur_value = parsec_atomic_fetch_dec_int32( deps ) - 1;
     }
     PARSEC_DEBUG_VERBOSE(10, parsec_debug_output, "Activate counter dependency for %s leftover %d (excluding current)",
@@ -1696,6 +1702,9 @@ parsec_update_deps_with_mask(parsec_taskpool_t *tp,
 #endif
     }
 
+#if defined(PARSEC_VERIF)
+    PARSEC_VERIF_YIELD(PARSEC_VERIF_SITE_DEPS_MASK);
+#endif
     dep_cur_value = parsec_atomic_fetch_or_int32( deps, dep_new_value ) | dep_new_value;
 
 #if defined(PARSEC_DEBUG_PARANOID)
